@@ -10,3 +10,8 @@ import NTV.Proofs.C07
 #print axioms NTV.C07.multiplicity_true_coprime_partial
 #print axioms NTV.C07.multiplicity_true_partial
 #print axioms NTV.C07.distinct_partial
+#print axioms NTV.C07.gcdExact_holds
+#print axioms NTV.C07.factor_shape_exact
+#print axioms NTV.C07.distinct
+#print axioms NTV.C07.multiplicity_true
+#print axioms NTV.C07.product_identity_of_irreducible_partial
